@@ -102,7 +102,7 @@ func tieDump(rr *core.Rand) *gen.Dump {
 	for b := 0; b < nb; b++ {
 		for k := 0; k < per; k++ {
 			g := gen.Goroutine{ID: gen.GenID(rr, used), State: "IO wait"}
-			args := gen.Args{Vals: []gen.Arg{{Value: uint64(b + 1)}, {Value: 0xc000000000 + uint64(rr.Intn(1+nptr))*16}}}
+			args := gen.Args{Vals: []gen.Arg{{Value: uint64(b + 1), Inaccurate: rr.Chance(1, 4)}, {Value: 0xc000000000 + uint64(rr.Intn(1+nptr))*16}}}
 			if byCreator {
 				args = gen.Args{Vals: []gen.Arg{{Value: 7}}}
 				g.Creator = &gen.Creator{Sym: gen.Sym{Pkg: "main", Name: fmt.Sprintf("spawn%d", b)}, File: "/src/app/main.go", Line: 10}
